@@ -19,6 +19,9 @@ CLAIMS["C03"] = dict(cat="proof", tech="CFG gate rule (edge-cut reachability of 
 CLAIMS["C12"] = dict(cat="other", tech="CFG gate rule + store/compare expression agreement (def-use normal forms) + dominance rules",
    text="Structural mechanisms of the multi-part receiver: writes to the receiver are behind the can_receive(tick) gate in all three message handlers; for each attribute of the transfer the stored expression and the expression later parts are compared with have the same normal form over the message fields; insert is dominated by !contains_key, completion by parts.len()==num_parts and passes finish_delta(tick); sender split uses ceil(len/MAX_SNAPSHOT_PACKSIZE) and tick-base, receiver reconstructs tick.wrapping_sub(wire).",
    note=TB + "Exactly-once delivery over all permutations and duplications is a schedule-level property and is not decided; VecMap::values key order is assumed.")
+CLAIMS["C05"] = dict(cat="other", tech="bit-provenance dataflow (known-bits lattice with symbolic sources) over pack/unpack; table agreement on MIR switch/aggregate structure",
+   text="Header clause decided for all bit patterns at once: for every packet/chunk header type of 0.6 and 0.7, unpack(pack(f)) = f on all in-range fields, pack accepts every unpack output, and the bits that pack(unpack(b)) cannot reproduce are exactly the bits the reader's warning conditions test. Control-message tables of writer and reader are inverse bijections; compression flag/payload selection and token placement are consistent between write_impl and read_impl.",
+   note=TB + "Whole-packet round trips through the Huffman bit stream are value-level and not decided. The analysed functions must be straight-line apart from assert/warn diamonds; otherwise the rule refuses (fails closed).")
 NA = {}
 m = {"version": 1,
      "setup_cmd": "cd /verif/engine/mirfacts && CARGO_NET_OFFLINE=true cargo build --release --offline",
